@@ -87,7 +87,7 @@ type Node struct {
 	Key   string     `json:"key"`
 	Kind  string     `json:"kind"`           // lam | sub | tools
 	Flav  string     `json:"flav,omitempty"` // i | s | c | t   (the lambda's only native paradigm)
-	Beh   string     `json:"beh,omitempty"`  // ok | fail | panic | item | rerun | cancel | convpanic
+	Beh   string     `json:"beh,omitempty"`  // ok | fail | panic | item | rerun | cancel | convpanic | prefail | postfail (the node's state pre / post handler returns Err; the body succeeds)
 	Err   *ErrSpec   `json:"err,omitempty"`
 	ID    int        `json:"id,omitempty"` // panic payload
 	Sub   *Graph     `json:"sub,omitempty"`
@@ -291,8 +291,46 @@ func callTime(e *env, n *Node, path []string) error {
 		e.rec(path, "cancel")
 		e.cancel()
 		return nil
+	case "prefail", "postfail": // the body itself succeeds (the handler logs its own failure)
+		e.rec(path, "ok")
+		return nil
 	}
 	e.rec(path, n.Beh)
+	return nil
+}
+
+// hState is the local state of every graph of a case that has a node with a state handler.
+type hState struct{}
+
+func genState(ctx context.Context) *hState { return &hState{} }
+
+// handlerOpts: the state pre / post handler of a node whose behaviour is prefail / postfail
+// (invoke-native handlers: in stream mode the framework reads the stream for them).
+func handlerOpts(e *env, n *Node, path []string) []compose.GraphAddNodeOpt {
+	switch n.Beh {
+	case "prefail":
+		return []compose.GraphAddNodeOpt{compose.WithStatePreHandler(func(ctx context.Context, in M, s *hState) (M, error) {
+			e.rec(path, "prefail")
+			return in, n.Err.mk()
+		})}
+	case "postfail":
+		return []compose.GraphAddNodeOpt{compose.WithStatePostHandler(func(ctx context.Context, out M, s *hState) (M, error) {
+			e.rec(path, "postfail")
+			return out, n.Err.mk()
+		})}
+	}
+	return nil
+}
+
+// stateOpts: the graph declares the state when one of its own nodes has a handler.
+func stateOpts(g *Graph) []compose.NewGraphOption {
+	for _, st := range g.Stages {
+		for _, n := range st {
+			if n.Kind == "lam" && (n.Beh == "prefail" || n.Beh == "postfail") {
+				return []compose.NewGraphOption{compose.WithGenLocalState(genState)}
+			}
+		}
+	}
 	return nil
 }
 
@@ -484,7 +522,7 @@ func buildChain(e *env, g *Graph, prefix []string) (compilable, error) {
 	if g.Loop || g.EndBr || len(g.Stages) == 0 {
 		return nil, errors.New("chain cases have stages and no branch")
 	}
-	ch := compose.NewChain[M, M]()
+	ch := compose.NewChain[M, M](stateOpts(g)...)
 	for _, st := range g.Stages {
 		if len(st) != 1 {
 			return nil, errors.New("chain cases have single-node stages")
@@ -493,7 +531,7 @@ func buildChain(e *env, g *Graph, prefix []string) (compilable, error) {
 		path := pathOf(prefix, n.Key)
 		switch n.Kind {
 		case "lam":
-			ch.AppendLambda(lambdaOf(e, n, path), compose.WithNodeKey(n.Key))
+			ch.AppendLambda(lambdaOf(e, n, path), append(handlerOpts(e, n, path), compose.WithNodeKey(n.Key))...)
 		case "sub":
 			sg, err := build(e, n.Sub, path)
 			if err != nil {
@@ -519,7 +557,7 @@ func buildWF(e *env, g *Graph, prefix []string) (compilable, error) {
 	if len(g.Stages) == 0 || g.Loop {
 		return nil, errors.New("workflow cases have stages and no cycle")
 	}
-	wf := compose.NewWorkflow[M, M]()
+	wf := compose.NewWorkflow[M, M](stateOpts(g)...)
 	wire := func(wn *compose.WorkflowNode, preds []*Node) {
 		if len(preds) == 1 {
 			wn.AddInput(preds[0].Key)
@@ -535,7 +573,7 @@ func buildWF(e *env, g *Graph, prefix []string) (compilable, error) {
 			var wn *compose.WorkflowNode
 			switch n.Kind {
 			case "lam":
-				wn = wf.AddLambdaNode(n.Key, lambdaOf(e, n, path))
+				wn = wf.AddLambdaNode(n.Key, lambdaOf(e, n, path), handlerOpts(e, n, path)...)
 			case "sub":
 				sg, err := build(e, n.Sub, path)
 				if err != nil {
@@ -563,14 +601,14 @@ func buildWF(e *env, g *Graph, prefix []string) (compilable, error) {
 }
 
 func buildGraph(e *env, g *Graph, prefix []string) (compilable, error) {
-	cg := compose.NewGraph[M, M]()
+	cg := compose.NewGraph[M, M](stateOpts(g)...)
 	for _, st := range g.Stages {
 		for _, n := range st {
 			path := pathOf(prefix, n.Key)
 			var err error
 			switch n.Kind {
 			case "lam":
-				err = cg.AddLambdaNode(n.Key, lambdaOf(e, n, path))
+				err = cg.AddLambdaNode(n.Key, lambdaOf(e, n, path), handlerOpts(e, n, path)...)
 			case "sub":
 				var sg compilable
 				sg, err = build(e, n.Sub, path)
@@ -992,8 +1030,21 @@ func (engine) Decode(raw json.RawMessage) (any, error) {
 	return &c, nil
 }
 
-func (engine) Run(ci any) lib.Result {
+// Run runs the case; a case once seen failing keeps its failing result (see shrink.go).
+func (e engine) Run(ci any) lib.Result {
 	c := ci.(*Case)
+	key := caseKey(c)
+	if r, ok := failed[key]; ok {
+		return r
+	}
+	r := e.run1(c)
+	if r.Oracle != "" {
+		failed[key] = r
+	}
+	return r
+}
+
+func (engine) run1(c *Case) lib.Result {
 	if c.Fwd != nil {
 		o := runFwd(c)
 		res := lib.Result{Obs: o, Tags: fwdTags(c, &o)}
